@@ -5,7 +5,10 @@ Sub-checks
              (json / python literal / yaml / toml), literal specs derived from the target (python / json
              spec format), target and spec delivered by argv, file or stdin, --indent, --scalar;
              malformed / unreadable targets, among them bytes on standard input that are not UTF-8 (stdin is a
-             TextIOWrapper over the bytes, errors='strict' as in a UTF-8 locale or 'surrogateescape' as in C / POSIX)
+             TextIOWrapper over the bytes, errors='strict' as in a UTF-8 locale or 'surrogateescape' as in C / POSIX),
+             a target ARGUMENT whose bytes are not UTF-8 (argv strings carrying lone surrogates, as the interpreter
+             decodes argv), no / a closed standard input (sys.stdin None or a closed stream) behind each of the three
+             stdin channels, and a --spec-file that is not UTF-8
   hostile    spec texts from a grammar of calls, attribute access, lambdas, comprehensions, f-strings and
              dunder walks, each arranged so that *executing* it flips a canary planted in builtins;
              differential oracle: ast.literal_eval (literal -> library result, else rejection) or the
@@ -14,6 +17,9 @@ Sub-checks
              under LC_ALL=C.UTF-8 / LC_ALL=C / PYTHONIOENCODING=utf-8:strict
   process-stdin  ENUMERATED: undecodable stdin as real processes, every stdin channel x those three configurations
              x position of the bad bytes (thorough: x every bad byte sequence x target format)
+  process-arg       ENUMERATED, real processes: bytes that are not UTF-8 in the target argument x configuration x target format
+  process-nostdin   ENUMERATED, real processes started with standard input closed (`<&-`) x stdin channel x spec channel
+  process-specfile  ENUMERATED, real processes: a --spec-file that is not UTF-8 x target channel x position of the bad bytes
 """
 import io
 import os
@@ -39,12 +45,19 @@ PROPERTY = 'C19'
 RULE = ('targets: recursive JSON values (unicode, large ints, floats, empty containers, falsy scalars) serialised as json / python '
         'literal / yaml / toml; specs: literal specs derived from the target (paths, dicts, lists, tuples, nested; some failing) '
         'as python-literal or json text, raw path text when possible; channels argv / file / stdin; flags --indent, --scalar; '
-        'malformed / unreadable targets incl. non-UTF-8 bytes in a file or on stdin (3 stdin channels x strict / surrogateescape decoding). '
+        'malformed / unreadable targets incl. non-UTF-8 bytes in a file or on stdin (3 stdin channels x strict / surrogateescape decoding), '
+        'non-UTF-8 bytes in the target argument (lone surrogates in argv), no / a closed standard input x 3 stdin channels, a non-UTF-8 spec file. '
         'hostile: generated non-literal spec texts with an execution canary. '
         'Non-trivial = spec with >= 2 levels, or a non-argv channel, or a non-default flag.')
 ASSUMPTIONS = [
     'expected stdout: json.dumps(glom(target, spec), indent=indent or None, sort_keys=True) + newline; --scalar prints str(result) for scalar results',
-    'malformed *spec* text is only required not to execute and not to print a result',
+    'malformed *spec* text is only required not to execute and not to print a result; a spec FILE that cannot be read as text '
+    'is unreadable input like an unreadable target file (the CLI words both the same way: could not read spec / target file): usage error',
+    'no standard input at all (descriptor 0 closed: sys.stdin is None) and no target argument means no target was given: the empty '
+    'default {} as for an empty target (test_cli_blank); an explicit - / --target-file - then names something unreadable: usage error. '
+    'A closed stream OBJECT as sys.stdin (in-process only) is fed to the two explicit channels only',
+    'bytes in argv reach the CLI the way the interpreter decodes them: UTF-8 with surrogateescape (bytes that are not UTF-8 become '
+    'lone surrogates); a NUL byte cannot be passed in argv',
     'targets use string keys only (json.dumps(sort_keys=True) cannot order mixed keys)',
     'a usage error is told from other non-zero exits by: no traceback / no escaping exception, and nothing on stdout '
     '(results and GlomError messages are what the CLI prints there)',
@@ -77,10 +90,17 @@ def stdin_bytes(stdin_data):
         raise HarnessBug('stdin text of a well-formed target has no UTF-8 encoding: %r (%s)' % (stdin_data[:200], e))
 
 
-def run_inprocess(argv, stdin_data, stdin_errors='strict'):
-    """stdin_errors: the error handler of sys.stdin, 'strict' (UTF-8 locales) or 'surrogateescape' (C / POSIX / C.UTF-8)"""
+def run_inprocess(argv, stdin_data, stdin_errors='strict', stdin_state='open'):
+    """stdin_errors: the error handler of sys.stdin, 'strict' (UTF-8 locales) or 'surrogateescape' (C / POSIX / C.UTF-8);
+    stdin_state: 'open', 'none' (sys.stdin is None: what the interpreter sets up when descriptor 0 is closed) or 'closed' (a closed stream)"""
     old = sys.stdin, sys.stdout, sys.stderr
     sys.stdin = io.TextIOWrapper(io.BytesIO(stdin_bytes(stdin_data)), encoding='utf-8', errors=stdin_errors, newline='\n')
+    if stdin_state == 'none':
+        sys.stdin = None
+    elif stdin_state == 'closed':
+        sys.stdin.close()
+    elif stdin_state != 'open':
+        raise HarnessBug('stdin_state %r' % (stdin_state,))
     sys.stdout = out = io.StringIO()
     sys.stderr = err = io.StringIO()
     status, exc = None, None
@@ -105,7 +125,22 @@ PROCESS_ENVS = {            # configurations that decide how the interpreter dec
 }
 
 
-def run_subprocess(argv, stdin_data, cwd, penv=None):
+CLOSE_STDIN = ['/bin/sh', '-c', 'exec "$0" "$@" <&-']          # (what a shell user writes: python -m glom ... <&-)
+_PROBED = {}
+
+
+def probe_closed_stdin():
+    """harness self-check, once per process: behind CLOSE_STDIN the interpreter really starts without a standard input"""
+    if 'closed-stdin' not in _PROBED:
+        p = subprocess.run(CLOSE_STDIN + [sys.executable, '-c', 'import sys; print(sys.stdin is None)'], stdin=subprocess.DEVNULL,
+                           stdout=subprocess.PIPE, stderr=subprocess.PIPE, timeout=120)
+        _PROBED['closed-stdin'] = (p.returncode, p.stdout.strip(), p.stderr[-300:])
+    if _PROBED['closed-stdin'][:2] != (0, b'True'):
+        raise HarnessBug('cannot start a process with standard input closed: %r' % (_PROBED['closed-stdin'],))
+
+
+def run_subprocess(argv, stdin_data, cwd, penv=None, stdin_closed=False):
+    """argv strings go out as UTF-8 with surrogateescape: lone surrogates (U+DC80..U+DCFF) become the raw bytes they stand for"""
     env = dict(os.environ)
     env['PYTHONPATH'] = boot.REPO
     env['PYTHONDONTWRITEBYTECODE'] = '1'
@@ -114,8 +149,22 @@ def run_subprocess(argv, stdin_data, cwd, penv=None):
             if k in ('LANG', 'LANGUAGE', 'PYTHONIOENCODING', 'PYTHONUTF8', 'PYTHONCOERCECLOCALE') or k.startswith('LC_'):
                 del env[k]
         env.update(PROCESS_ENVS[penv])
-    p = subprocess.run([sys.executable, '-B', '-m', 'glom'] + list(argv), input=stdin_bytes(stdin_data),
-                       stdout=subprocess.PIPE, stderr=subprocess.PIPE, env=env, cwd=cwd, timeout=120)
+    try:
+        args = [a.encode('utf-8', 'surrogateescape') for a in argv]
+    except UnicodeError as e:
+        raise HarnessBug('argument that cannot be passed to a process: %r (%s)' % (argv, e))
+    if any(b'\0' in a for a in args):
+        raise HarnessBug('NUL byte in an argument: %r' % (argv,))
+    cmd = [sys.executable, '-B', '-m', 'glom'] + args
+    if stdin_closed:
+        if stdin_data is not None:
+            raise HarnessBug('data for a closed standard input')
+        probe_closed_stdin()
+        p = subprocess.run(CLOSE_STDIN + cmd, stdin=subprocess.DEVNULL,
+                           stdout=subprocess.PIPE, stderr=subprocess.PIPE, env=env, cwd=cwd, timeout=120)
+    else:
+        p = subprocess.run(cmd, input=stdin_bytes(stdin_data),
+                           stdout=subprocess.PIPE, stderr=subprocess.PIPE, env=env, cwd=cwd, timeout=120)
     exc = None
     err = p.stderr.decode('utf8', 'replace')
     if 'Traceback (most recent call last)' in err:
@@ -237,11 +286,15 @@ def serialise(value, fmt):
     return toml_dumps(value)
 
 
-MALFORMS = ['truncate', 'wrong-format', 'missing-file', 'construct-error', 'undecodable-file', 'undecodable-stdin']
+MALFORMS = ['truncate', 'wrong-format', 'missing-file', 'construct-error', 'undecodable-file', 'undecodable-stdin',
+            'undecodable-arg', 'stdin-closed', 'undecodable-spec-file']
+# (the classes that are themselves matrices - channels x decodings x positions - weigh more)
+MALFORM_DRAW = [None] * 13 + MALFORMS + ['undecodable-stdin'] * 2 + ['undecodable-arg', 'stdin-closed', 'undecodable-spec-file']
 STDIN_CHANNELS = ['stdin-dash', 'stdin-file-dash', 'stdin-implicit']
 # byte sequences that no UTF-8 text contains (hex): latin-1 e-acute, 0xff.., a cut-off 3-byte sequence, an overlong '/',
 # a UTF-8-encoded surrogate, a UTF-16 BOM + '{', a 5-byte lead, a stray continuation byte
 BAD_BYTES = ['e9', 'fffefa', 'e282', 'c0af', 'eda080', 'fffe7b00', 'f888808080', '80']
+ARG_BAD_BYTES = [b for b in BAD_BYTES if '00' not in [b[i:i + 2] for i in range(0, len(b), 2)]]      # (no NUL in argv)
 BAD_MARK = '@@'
 
 
@@ -261,6 +314,55 @@ def gen_undecodable_stdin(draw, recipe):
         recipe['spec'] = ['s', 'zbad']              # the value that holds the bad bytes
         recipe['sformat'] = draw(st.sampled_from(['python', 'json']))
     return recipe
+
+
+def gen_undecodable_arg(draw, recipe):
+    """the target is an ARGUMENT whose bytes are not UTF-8 (python -m glom a $'{"a": "\\xff"}'); positions as for standard input.
+    Inside a string value the loaders of json and toml take the decoded argument (lone surrogates) without complaint"""
+    recipe['malform'] = 'undecodable-arg'
+    recipe['tsource'] = recipe['ssource'] = 'argv'
+    recipe['bad'] = draw(st.sampled_from(ARG_BAD_BYTES))
+    recipe['bad_where'] = draw(st.sampled_from(['string', 'string', 'string', 'string', 'head', 'tail', 'only']))
+    recipe['penv'] = draw(st.sampled_from(sorted(PROCESS_ENVS)))                          # real process
+    if recipe['tformat'] != 'json' and draw(st.booleans()):
+        recipe['tformat'] = 'json'
+    if recipe['bad_where'] == 'tail' and serialise(recipe['target'], recipe['tformat']).startswith('-'):
+        recipe['bad_where'] = 'head'                # (an argument with a leading '-' would be read as a flag)
+    if recipe['bad_where'] == 'string' and draw(st.booleans()):
+        recipe['spec'] = ['s', 'zbad']              # the value that holds the bad bytes
+        recipe['sformat'] = draw(st.sampled_from(['python', 'json']))
+    return recipe
+
+
+def gen_stdin_closed(draw, recipe):
+    """no standard input (`<&-`: sys.stdin is None; in-process also a closed stream object) behind each way to ask for it.
+    Without a target argument there is then no target at all: the specs of that channel are drawn for the empty default"""
+    recipe['malform'] = 'stdin-closed'
+    recipe['tsource'] = draw(st.sampled_from(STDIN_CHANNELS))
+    if recipe['tsource'] == 'stdin-dash':
+        recipe['ssource'] = 'argv'
+    if recipe['tsource'] == 'stdin-implicit':
+        recipe['stdin_state'] = 'none'
+        recipe['target'] = {}
+        recipe['spec'] = gen_spec(draw, {}, draw(st.sampled_from([0, 1, 2])))
+        if has_tuple(recipe['spec']):
+            recipe['sformat'] = 'python'
+    else:
+        recipe['stdin_state'] = draw(st.sampled_from(['none', 'closed']))        # in-process (sub cli)
+    return recipe
+
+
+def gen_undecodable_spec_file(draw, recipe):
+    """--spec-file names a file that is not UTF-8 text; the target is well-formed and arrives by any channel"""
+    recipe['malform'] = 'undecodable-spec-file'
+    recipe['ssource'] = 'file'
+    recipe['bad'] = draw(st.sampled_from(BAD_BYTES))
+    recipe['bad_where'] = draw(st.sampled_from(['string', 'string', 'head', 'tail', 'only']))
+    return recipe
+
+
+GEN_MALFORM = {'undecodable-stdin': gen_undecodable_stdin, 'undecodable-arg': gen_undecodable_arg,
+               'stdin-closed': gen_stdin_closed, 'undecodable-spec-file': gen_undecodable_spec_file}
 
 
 def gen_cli(draw, force_malform=None):
@@ -283,9 +385,9 @@ def gen_cli(draw, force_malform=None):
               'indent': draw(st.sampled_from([None, None, 0, 1, 2, 4, 8])),
               'scalar': draw(st.sampled_from([False, False, True])),
               'raw_path': draw(st.booleans()),
-              'malform': force_malform if force_malform is not None else draw(st.sampled_from([None] * 8 + MALFORMS + ['undecodable-stdin']))}
-    if recipe['malform'] == 'undecodable-stdin':
-        recipe = gen_undecodable_stdin(draw, recipe)
+              'malform': force_malform if force_malform is not None else draw(st.sampled_from(MALFORM_DRAW))}
+    if recipe['malform'] in GEN_MALFORM:
+        recipe = GEN_MALFORM[recipe['malform']](draw, recipe)
     return recipe
 
 
@@ -309,8 +411,72 @@ def enum_process_stdin(tier):
                                'malform': 'undecodable-stdin', 'bad': bad, 'bad_where': where, 'stdin_errors': 'strict', 'penv': penv}
 
 
+ENUM_BASE = {'target': {'a': 1}, 'tformat': 'json', 'spec': ['s', 'a'], 'sformat': 'python', 'tsource': 'argv', 'ssource': 'argv',
+             'indent': None, 'scalar': False, 'raw_path': False}
+
+
+def enum_process_arg(tier):
+    """real processes: bytes that are not UTF-8 in the target argument x configuration x target format (x the value asked for)"""
+    th, base = tier == 'thorough', ENUM_BASE
+    for penv in sorted(PROCESS_ENVS):
+        for tformat in (['json', 'python', 'yaml', 'toml'] if th else ['json', 'toml']):
+            for where in (['string', 'head', 'tail', 'only'] if th else ['string']):
+                for bad in (ARG_BAD_BYTES if th else ['ff']):
+                    for key in (['zbad', 'a'] if where == 'string' else ['a']):
+                        yield dict(base, malform='undecodable-arg', tformat=tformat, spec=['s', key], bad=bad, bad_where=where, penv=penv)
+
+
+def enum_process_nostdin(tier):
+    """real processes started with standard input closed (<&-) x stdin channel x spec channel"""
+    th, base = tier == 'thorough', ENUM_BASE
+    for penv in (sorted(PROCESS_ENVS) if th else ['C.UTF-8']):
+        for channel in STDIN_CHANNELS:
+            for ssource in (['argv'] if channel == 'stdin-dash' else ['argv', 'file']):
+                if channel == 'stdin-implicit':
+                    for spec in [['s', 'a'], ['t', []], ['d', [['out', ['t', []]]]]]:
+                        yield dict(base, malform='stdin-closed', target={}, spec=spec, tsource=channel, ssource=ssource,
+                                   stdin_state='none', penv=penv)
+                else:
+                    yield dict(base, malform='stdin-closed', tsource=channel, ssource=ssource, stdin_state='none', penv=penv)
+
+
+def enum_process_specfile(tier):
+    """real processes: a --spec-file that is not UTF-8 x target channel x position of the bad bytes"""
+    th, base = tier == 'thorough', ENUM_BASE
+    for penv in (sorted(PROCESS_ENVS) if th else ['C.UTF-8', 'ioenc-strict']):
+        for tsource in (['argv', 'file'] + STDIN_CHANNELS if th else ['argv', 'stdin-implicit']):
+            for where in (['string', 'head', 'tail', 'only'] if th else ['string', 'only']):
+                for bad in (BAD_BYTES if th else ['ff']):
+                    yield dict(base, malform='undecodable-spec-file', tsource=tsource, ssource='file', bad=bad, bad_where=where, penv=penv)
+
+
+def not_utf8(data):
+    try:
+        data.decode('utf-8')
+    except UnicodeDecodeError:
+        return data
+    raise HarnessBug('bytes meant to be undecodable are UTF-8: %r' % (data,))
+
+
+def undecodable_spec_text(recipe, spec_text):
+    """the bytes of the spec file for malform == 'undecodable-spec-file': the bad bytes inside the text (before its last character:
+    within the quotes of a path string), before it, after it, or alone"""
+    bad = bytes.fromhex(recipe['bad'])
+    text = spec_text.encode('utf-8')
+    where = recipe['bad_where']
+    if where == 'string':
+        return not_utf8(text[:-1] + bad + text[-1:])
+    if where == 'head':
+        return not_utf8(bad + text)
+    if where == 'tail':
+        return not_utf8(text + bad)
+    if where != 'only':
+        raise HarnessBug('bad_where %r' % (where,))
+    return not_utf8(bad)
+
+
 def undecodable_document(recipe):
-    """the bytes for malform == 'undecodable-stdin'"""
+    """the bytes for malform == 'undecodable-stdin' / 'undecodable-arg'"""
     bad = bytes.fromhex(recipe['bad'])
     where = recipe['bad_where']
     value = recipe['target']
@@ -327,15 +493,12 @@ def undecodable_document(recipe):
         data = text + bad
     else:
         data = bad
-    try:
-        data.decode('utf-8')
-    except UnicodeDecodeError:
-        return data
-    raise HarnessBug('bytes meant to be undecodable are UTF-8: %r' % (data,))
+    return not_utf8(data)
 
 
 def make_invocation(recipe, tmp):
-    """returns (argv, stdin data (str, or bytes when they are not text, or None), spec, target_text)"""
+    """returns (argv, stdin data (str, or bytes when they are not text, or None), spec, target_text);
+    argv holds str: bytes that are not UTF-8 appear the way the interpreter decodes argv (surrogateescape)"""
     spec = build_spec(recipe['spec'])
     sformat = recipe['sformat']
     if sformat == 'json':
@@ -364,6 +527,17 @@ def make_invocation(recipe, tmp):
         if recipe['tsource'] not in STDIN_CHANNELS:
             raise HarnessBug('undecodable-stdin with tsource %r' % (recipe['tsource'],))
         target_text = undecodable_document(recipe)          # bytes
+    elif malform == 'undecodable-arg':
+        if (recipe['tsource'], recipe['ssource']) != ('argv', 'argv'):
+            raise HarnessBug('undecodable-arg with tsource %r, ssource %r' % (recipe['tsource'], recipe['ssource']))
+        target_text = undecodable_document(recipe).decode('utf-8', 'surrogateescape')
+        if target_text.startswith('-') or '\0' in target_text or spec_text == '' or spec_text.startswith('-'):
+            raise HarnessBug('undecodable-arg: %r %r cannot be passed as two positional arguments' % (spec_text, target_text))
+    elif malform == 'stdin-closed':
+        if recipe['tsource'] not in STDIN_CHANNELS or recipe.get('stdin_state') not in ('none', 'closed'):
+            raise HarnessBug('stdin-closed with tsource %r, stdin_state %r' % (recipe['tsource'], recipe.get('stdin_state')))
+    elif malform == 'undecodable-spec-file' and recipe['ssource'] != 'file':
+        raise HarnessBug('undecodable-spec-file with ssource %r' % (recipe['ssource'],))
     argv = []
     stdin_text = None
     flags = ['--target-format', recipe['tformat']]
@@ -381,8 +555,8 @@ def make_invocation(recipe, tmp):
     pos = []
     if ssource == 'file':
         sp = os.path.join(tmp, 'spec.txt')
-        with open(sp, 'w', encoding='utf8') as f:
-            f.write(spec_text)
+        with open(sp, 'wb') as f:
+            f.write(undecodable_spec_text(recipe, spec_text) if malform == 'undecodable-spec-file' else spec_text.encode('utf8'))
         flags += ['--spec-file', sp]
     else:
         pos.append(spec_text)
@@ -422,6 +596,8 @@ def make_invocation(recipe, tmp):
         stdin_text = target_text
     else:
         stdin_text = target_text
+    if malform == 'stdin-closed':
+        stdin_text = None           # (nothing can be delivered)
     return flags + pos, stdin_text, spec, target_text
 
 
@@ -437,8 +613,23 @@ def expected_output(recipe, spec, target_value):
     return ('ok', json.dumps(result, indent=indent or None, sort_keys=True) + '\n')
 
 
-def judge(recipe, res, spec, target_text, where):
+def stdin_channel(argv):
+    """the stdin channel as it appears on the command line"""
+    if argv and argv[-1] == '-' and '--target-file' not in argv[-2:-1]:
+        return 'dash-positional'
+    return 'target-file-dash' if '--target-file' in argv else 'implicit'
+
+
+def no_target_given(recipe, argv):
+    """no target argument, no target file and no standard input to take one from: the target is the empty default {} (what the
+    CLI documents for an empty target, test_cli_blank), not something unreadable"""
+    return recipe['malform'] == 'stdin-closed' and recipe.get('stdin_state') == 'none' and stdin_channel(argv) == 'implicit'
+
+
+def judge(recipe, res, spec, target_text, where, argv=()):
     malform = recipe['malform']
+    if malform is not None and no_target_given(recipe, list(argv)):
+        malform, target_text = None, ''
     if malform is not None:
         # "an unreadable or malformed target yields a usage error rather than a result": a failing exit that is no crash
         # (no exception leaves main(), no traceback), and neither a result nor the message of an evaluation on stdout
@@ -475,15 +666,29 @@ def nontrivial(recipe):
     return deep or recipe['tsource'] != 'argv' or recipe['ssource'] != 'argv' or recipe['indent'] is not None or recipe['scalar']
 
 
-def label_malform(recipe, argv, ctx, decoding):
-    if recipe['malform'] is None:
+def label_malform(recipe, argv, ctx, decoding, kind):
+    malform = recipe['malform']
+    if malform is None:
         return
-    ctx.label('malform-' + recipe['malform'])
-    if recipe['malform'] == 'undecodable-stdin':
-        # the channel as it appears on the command line
-        channel = 'dash-positional' if argv and argv[-1] == '-' and '--target-file' not in argv[-2:-1] else (
-            'target-file-dash' if '--target-file' in argv else 'implicit')
-        ctx.label('undecodable-stdin-' + channel, 'undecodable-stdin-' + str(decoding), 'undecodable-stdin-at-' + recipe['bad_where'])
+    ctx.label('malform-' + malform)
+    if malform == 'undecodable-stdin':
+        ctx.label('undecodable-stdin-' + stdin_channel(argv), 'undecodable-stdin-' + str(decoding), 'undecodable-stdin-at-' + recipe['bad_where'])
+    elif malform == 'undecodable-arg':
+        if not any(0xdc80 <= ord(c) <= 0xdcff for c in argv[-1]) or len(argv) < 2 or argv[-2].startswith('-'):
+            raise HarnessBug('undecodable-arg: the last of two positional arguments should carry the bytes: %r' % (argv,))
+        ctx.label('undecodable-arg-at-' + recipe['bad_where'])
+        if decoding in PROCESS_ENVS:
+            ctx.label('undecodable-arg-' + decoding)
+        if recipe['bad_where'] == 'string':
+            ctx.label('undecodable-arg-string-in-' + recipe['tformat'])
+    elif malform == 'stdin-closed':
+        ctx.label('stdin-closed-' + stdin_channel(argv), 'stdin-closed-state-' + recipe['stdin_state'])
+        if kind != 'usage-error':
+            ctx.label('stdin-closed-no-target-' + kind)         # (the empty default was evaluated)
+    elif malform == 'undecodable-spec-file':
+        if '--spec-file' not in argv:
+            raise HarnessBug('undecodable-spec-file without --spec-file: %r' % (argv,))
+        ctx.label('undecodable-spec-file-at-' + recipe['bad_where'])
 
 
 def check_cli(recipe, ctx):
@@ -491,14 +696,16 @@ def check_cli(recipe, ctx):
     try:
         argv, stdin_text, spec, target_text = make_invocation(recipe, tmp)
         stdin_errors = recipe.get('stdin_errors', 'strict')
-        where = 'glom %s%s' % (' '.join(repr(a) for a in argv),
-                               (' <<< %r (stdin errors=%s)' % (stdin_text, stdin_errors)) if stdin_text is not None else '')
-        res = run_inprocess(argv, stdin_text, stdin_errors)
-        kind = judge(recipe, res, spec, target_text, where)
+        stdin_state = recipe.get('stdin_state', 'open') if recipe['malform'] == 'stdin-closed' else 'open'
+        where = 'glom %s%s%s' % (' '.join(repr(a) for a in argv),
+                                 (' <<< %r (stdin errors=%s)' % (stdin_text, stdin_errors)) if stdin_text is not None else '',
+                                 {'open': '', 'none': ' (sys.stdin is None)', 'closed': ' (sys.stdin is a closed stream)'}[stdin_state])
+        res = run_inprocess(argv, stdin_text, stdin_errors, stdin_state)
+        kind = judge(recipe, res, spec, target_text, where, argv)
     finally:
         shutil.rmtree(tmp, ignore_errors=True)
     ctx.label('outcome-' + kind, 'tformat-' + recipe['tformat'], 'tsource-' + recipe['tsource'], 'sformat-' + recipe['sformat'])
-    label_malform(recipe, argv, ctx, stdin_errors)
+    label_malform(recipe, argv, ctx, stdin_errors, kind)
     ctx.nontrivial(nontrivial(recipe))
     ctx.outcome([argv, kind])
 
@@ -508,14 +715,19 @@ def check_process(recipe, ctx):
     try:
         argv, stdin_text, spec, target_text = make_invocation(recipe, tmp)
         penv = recipe.get('penv')
-        where = '%spython -m glom %s%s' % (''.join('%s=%s ' % kv for kv in sorted(PROCESS_ENVS[penv].items())) if penv else '',
-                                           ' '.join(repr(a) for a in argv), (' <<< %r' % stdin_text) if stdin_text is not None else '')
-        res = run_subprocess(argv, stdin_text, tmp, penv)
-        kind = judge(recipe, res, spec, target_text, where)
+        stdin_closed = recipe['malform'] == 'stdin-closed'
+        if stdin_closed and recipe.get('stdin_state') != 'none':
+            # a real process has no closed stream object: descriptor 0 is closed and the interpreter sets sys.stdin to None
+            recipe = dict(recipe, stdin_state='none')
+        where = '%spython -m glom %s%s%s' % (''.join('%s=%s ' % kv for kv in sorted(PROCESS_ENVS[penv].items())) if penv else '',
+                                             ' '.join(repr(a) for a in argv), (' <<< %r' % stdin_text) if stdin_text is not None else '',
+                                             ' <&-' if stdin_closed else '')
+        res = run_subprocess(argv, stdin_text, tmp, penv, stdin_closed)
+        kind = judge(recipe, res, spec, target_text, where, argv)
     finally:
         shutil.rmtree(tmp, ignore_errors=True)
     ctx.label('outcome-' + kind, 'tsource-' + recipe['tsource'])
-    label_malform(recipe, argv, ctx, penv)
+    label_malform(recipe, argv, ctx, penv, kind)
     ctx.nontrivial(nontrivial(recipe))
     ctx.outcome([argv, kind])
 
@@ -650,12 +862,24 @@ SUBS = [
         floors={'outcome-ok': 0.25, 'outcome-glomerror': 0.03, 'outcome-usage-error': 0.05, 'tformat-toml': 0.02, 'tformat-yaml': 0.07,
                 'malform-undecodable-stdin': 0.03, 'undecodable-stdin-dash-positional': 0.007, 'undecodable-stdin-target-file-dash': 0.007,
                 'undecodable-stdin-implicit': 0.007, 'undecodable-stdin-strict': 0.014, 'undecodable-stdin-surrogateescape': 0.014,
-                'undecodable-stdin-at-string': 0.012}),
+                'undecodable-stdin-at-string': 0.009,
+                'malform-undecodable-arg': 0.015, 'undecodable-arg-at-string': 0.007, 'undecodable-arg-string-in-json': 0.004,
+                'malform-stdin-closed': 0.018, 'stdin-closed-dash-positional': 0.004, 'stdin-closed-target-file-dash': 0.0045,
+                'stdin-closed-implicit': 0.0035, 'stdin-closed-state-none': 0.009, 'stdin-closed-state-closed': 0.003,
+                'stdin-closed-no-target-ok': 0.002, 'malform-undecodable-spec-file': 0.018}),
     Sub('hostile', check_hostile, gen=gen_hostile, quick=1200, thorough=4000, floors={'diff-reject': 0.5}),
     Sub('process', check_process, gen=gen_process, quick=64, thorough=128, floors={'malform-undecodable-stdin': 0.04}),
     Sub('process-stdin', check_process, enum=enum_process_stdin,        # (enumerated: each channel / configuration is exactly 1/3)
         floors={'undecodable-stdin-dash-positional': 0.15, 'undecodable-stdin-target-file-dash': 0.15, 'undecodable-stdin-implicit': 0.15,
                 'undecodable-stdin-C': 0.15, 'undecodable-stdin-C.UTF-8': 0.15, 'undecodable-stdin-ioenc-strict': 0.15}),
+    Sub('process-arg', check_process, enum=enum_process_arg,
+        floors={'malform-undecodable-arg': 0.5, 'undecodable-arg-string-in-json': 0.05, 'undecodable-arg-string-in-toml': 0.05,
+                'undecodable-arg-C': 0.15, 'undecodable-arg-C.UTF-8': 0.15, 'undecodable-arg-ioenc-strict': 0.15}),
+    Sub('process-nostdin', check_process, enum=enum_process_nostdin,       # (channels: 1/9, 2/9 and 6/9 in both tiers)
+        floors={'malform-stdin-closed': 0.5, 'stdin-closed-dash-positional': 0.05, 'stdin-closed-target-file-dash': 0.1,
+                'stdin-closed-implicit': 0.3, 'stdin-closed-no-target-ok': 0.2, 'stdin-closed-no-target-glomerror': 0.1}),
+    Sub('process-specfile', check_process, enum=enum_process_specfile,
+        floors={'malform-undecodable-spec-file': 0.5, 'undecodable-spec-file-at-string': 0.12, 'undecodable-spec-file-at-only': 0.12}),
     fuzzrun.fuzz_sub('fuzz-spec-text', 'c19-spec-text', runs=20000, campaigns=4,
                      corpus=os.path.join(boot.VERIF, 'fuzz', 'corpus', 'c19-spec-text'), replay_sub='hostile'),
 ]
